@@ -53,7 +53,7 @@ def memberIdents : Item → List String
   | .struct _ _ _ fs => fs.map (·.rust)
   | .tagged _ _ _ _ vs => vs.map (·.name)
   | .oneOf _ _ _ vs => vs.map (·.name)
-  | .gqlEnum _ _ _ vs _ _ => vs
+  | .gqlEnum _ _ _ vs _ _ => vs ++ ["Other"]
   | .defaults fns => fns.map (·.1)
   | _ => []
 
